@@ -50,6 +50,7 @@ func WaitCond(ctx context.Context, cond *sync.Cond, fn func() bool) error {
 				go func() {
 					verifAt("sync.wc.watch.recv", cond, 0)
 					<-ctx.Done()
+					verifAt("sync.after.passed1", nil, 0)
 					locked := false
 					if l := cond.L; l != nil {
 						locked = true
@@ -71,5 +72,6 @@ func WaitCond(ctx context.Context, cond *sync.Cond, fn func() bool) error {
 		}
 		verifAt("sync.wc.wait", cond, 0)
 		cond.Wait()
+		verifAt("sync.after.woke1", nil, 0)
 	}
 }
